@@ -26,6 +26,68 @@ type c01Rec struct {
 	Alt  []int   `json:"alt"` // second admissible canonical text (negative zero spelt -0.0, -0e1 ...), or empty
 	Bad  [][]int `json:"bad"` // literals that are not integer literals within +/-(2^53-1)
 	Nz   bool    `json:"nz"`  // holds the literal -0
+	Ast  []int   `json:"ast"` // supplementary code points an ill-formed text really holds
+}
+
+// sameBuffer calls every entry point repeatedly on ONE buffer holding the text (never on a copy) and compares
+// each outcome with the outcome of the same call on a fresh copy: the same text must give the same result
+// the second time and after another entry point has worked on the slice.  assumeValid: include
+// CanonicalJSONAssumeValid (only for valid texts).  Returns "" or a description of the first difference.
+func sameBuffer(in []byte, versions []string, assumeValid bool) (step, what string) {
+	type call struct {
+		name string
+		fn   func(b []byte) ([]byte, bool)
+	}
+	canon := call{"CanonicalJSON", func(b []byte) ([]byte, bool) { o, e := gmsl.CanonicalJSON(b); return o, e != nil }}
+	assume := call{"CanonicalJSONAssumeValid", func(b []byte) ([]byte, bool) { return gmsl.CanonicalJSONAssumeValid(b), false }}
+	seq := []call{canon, canon}
+	if assumeValid {
+		seq = append(seq, assume, assume, canon)
+	}
+	for _, v := range versions {
+		v := v
+		seq = append(seq,
+			call{"EnforcedCanonicalJSON", func(b []byte) ([]byte, bool) {
+				o, e := gmsl.EnforcedCanonicalJSON(b, gmsl.RoomVersion(v))
+				return o, e != nil
+			}},
+			call{"CheckCanonicalJSON", func(b []byte) ([]byte, bool) {
+				return nil, gmsl.MustGetRoomVersion(gmsl.RoomVersion(v)).CheckCanonicalJSON(b) != nil
+			}})
+	}
+	seq = append(seq, canon)
+	if assumeValid {
+		seq = append(seq, assume)
+	}
+	buf := clone(in)
+	prev := "nothing"
+	for _, c := range seq {
+		fo, fe := c.fn(clone(in))
+		fo = clone(fo)
+		so, se := c.fn(buf)
+		if fe != se || !bytes.Equal(fo, so) {
+			return c.name + "-after-" + prev, fmt.Sprintf("%s on a fresh copy of the text gives %+q (error=%v); on the slice that %s had worked on before it gives %+q (error=%v); the slice now holds %+q", c.name, fo, fe, prev, so, se, buf)
+		}
+		prev = c.name
+	}
+	return "", ""
+}
+
+// inventedAstral returns a supplementary code point of out that is not among held (with multiplicity), or 0.
+func inventedAstral(out []byte, held []int) int {
+	left := map[int]int{}
+	for _, c := range held {
+		left[c]++
+	}
+	for _, c := range string(out) {
+		if c >= 0x10000 {
+			if left[int(c)] == 0 {
+				return int(c)
+			}
+			left[int(c)]--
+		}
+	}
+	return 0
 }
 
 // versionTable is the EnforcedCanonJSON column of spec/MatrixBase.tla, passed by the driver as
@@ -293,16 +355,37 @@ func c01Replay(r *c01Rec, vt *versionTable) hx.Result {
 				return fail("C01/invalid-accepted/enforced/"+r.Cor, fmt.Sprintf("not JSON (%s) but EnforcedCanonicalJSON(%s) returned %+q without error", r.Cor, v, o), "error", string(o))
 			}
 		}
+		if step, what := sameBuffer(in, reg, false); step != "" {
+			return fail("C01/same-buffer/"+step, what, nil, nil)
+		}
 		return hx.Result{OK: true, NT: nt}
 	case "valid":
 	default:
-		// grammatical but outside the property's "valid" (lone surrogate escape, duplicate keys): only "no panic"
+		// grammatical but outside the property's "valid" (unpaired surrogate escapes, duplicate keys): no panic, and an
+		// accepted text must not come out with a supplementary code point it does not hold (an invalid pair of
+		// escapes is not the character of the genuine pair)
+		invented := func(name string, o []byte) *hx.Result {
+			if c := inventedAstral(o, r.Ast); c != 0 {
+				res := fail("C01/illformed/invented-supplementary-code-point", fmt.Sprintf("%s = %+q holds U+%04X, which the text does not hold (its escapes are not a surrogate pair): a different value canonicalises to the bytes of the text with the genuine pair", name, o, c), nil, string(o))
+				return &res
+			}
+			return nil
+		}
 		if err == nil {
-			_ = gmsl.CanonicalJSONAssumeValid(clone(in))
+			if res := invented("CanonicalJSON", out); res != nil {
+				return *res
+			}
+			if res := invented("CanonicalJSONAssumeValid", gmsl.CanonicalJSONAssumeValid(clone(in))); res != nil {
+				return *res
+			}
 		}
 		for _, v := range reg {
 			_ = gmsl.MustGetRoomVersion(gmsl.RoomVersion(v)).CheckCanonicalJSON(clone(in))
-			_, _ = gmsl.EnforcedCanonicalJSON(clone(in), gmsl.RoomVersion(v))
+			if o, e := gmsl.EnforcedCanonicalJSON(clone(in), gmsl.RoomVersion(v)); e == nil {
+				if res := invented("EnforcedCanonicalJSON", o); res != nil {
+					return *res
+				}
+			}
 		}
 		return hx.Result{OK: true, NT: nt}
 	}
@@ -383,6 +466,10 @@ func c01Replay(r *c01Rec, vt *versionTable) hx.Result {
 		res := fail(first.key, first.what+fmt.Sprintf(" [room versions %v]", dedupe(failing)), nil, nil)
 		res.Extra = map[string]interface{}{"versions": dedupe(failing)}
 		return res
+	}
+	// the same text canonicalised again from the same slice, and after the other entry points have worked on it
+	if step, what := sameBuffer(in, reg, true); step != "" {
+		return fail("C01/same-buffer/"+step, what, nil, nil)
 	}
 	return hx.Result{OK: true, NT: nt}
 }
